@@ -81,7 +81,7 @@ impl Prop for C09 {
             let rt = ratio_tol(tol(sc.tot_weighted, sc.n), den);
             for (which, o) in [("permuted", &ep), ("subdivided", &es)] {
                 for (name, x, y) in [("rer", e0.rer, o.rer), ("rer_nrb", e0.rer_nrb, o.rer_nrb), ("rer_onst", e0.rer_onst, o.rer_onst)] {
-                    ensure!(((x - y).abs() as f64) <= rt, "ratios", "{}: {} in the base layout, {} in the {} one", name, x, y, which);
+                    ensure!(((x - y).abs() as f64) <= rt * (1.0 + x.abs().max(y.abs()) as f64), "ratios", "{}: {} in the base layout, {} in the {} one", name, x, y, which);
                 }
             }
         } else {
